@@ -430,7 +430,40 @@ func c15jsonOf(res interface{}) (out string) {
 	return strings.ReplaceAll(strings.ReplaceAll(sb.String(), "[ ]", "[  ]"), "{ }", "{  }")
 }
 
+// c15listShape (set per job by c15evalOne, modes "l:<shape>") selects the *document list* handed
+// to Engine.Evaluate: "nil" / "empty" (no documents), "nildoc" ([nil]), "docnil" ([d, nil]),
+// "nildocfirst" ([nil, d]), "new" ([NewDocument()]), "same" ([d, d], one pointer twice); "" = one
+// decoded document per text.
+var c15listShape string
+
 func c15decodeAll(texts []string) []*gedcom.Document {
+	one := func() *gedcom.Document {
+		if len(texts) == 0 {
+			return gedcom.NewDocument()
+		}
+		d, err := gedcom.NewDocumentFromString(texts[0])
+		if err != nil {
+			d = gedcom.NewDocument()
+		}
+		return d
+	}
+	switch c15listShape {
+	case "nil":
+		return nil
+	case "empty":
+		return []*gedcom.Document{}
+	case "nildoc":
+		return []*gedcom.Document{nil}
+	case "docnil":
+		return []*gedcom.Document{one(), nil}
+	case "nildocfirst":
+		return []*gedcom.Document{nil, one()}
+	case "new":
+		return []*gedcom.Document{gedcom.NewDocument()}
+	case "same":
+		d := one()
+		return []*gedcom.Document{d, d}
+	}
 	var docs []*gedcom.Document
 	for _, t := range texts {
 		d, err := gedcom.NewDocumentFromString(t)
@@ -602,6 +635,11 @@ func c15reuseFormatters(query string, texts []string) (out string) {
 }
 
 func c15evalOne(query string, texts []string, mode string) (o c15Obs) {
+	c15listShape = ""
+	if strings.HasPrefix(mode, "l:") {
+		c15listShape = mode[2:]
+		mode = "c"
+	}
 	if mode == "f" {
 		o.Parse, o.Raw, o.Top, o.Fmt = "ok", "-", "-", "-"
 		o.Reuse = c15reuseFormatters(query, texts)
@@ -814,6 +852,9 @@ func c15workerMain(args []string) int {
 			case "job":
 				var dt []string
 				for _, id := range strings.Split(parts[2], ",") {
+					if id == "-" || id == "" { // no documents
+						continue
+					}
 					n, _ := strconv.Atoi(id)
 					dt = append(dt, texts[n])
 				}
@@ -858,7 +899,11 @@ func c15runChunk(pool []*c15Doc, jobs []c15Job, res []c15Obs, lo, hi int, perJob
 				for k, d := range jobs[i].Docs {
 					ids[k] = strconv.Itoa(d)
 				}
-				fmt.Fprintf(w, "job %s %s %s\n", jobs[i].Mode, strings.Join(ids, ","), hexs(jobs[i].Query))
+				idList := strings.Join(ids, ",")
+				if idList == "" {
+					idList = "-"
+				}
+				fmt.Fprintf(w, "job %s %s %s\n", jobs[i].Mode, idList, hexs(jobs[i].Query))
 			}
 			w.Flush()
 			stdin.Close()
@@ -980,7 +1025,10 @@ func c15docsWire(pool []*c15Doc, ids []int) string {
 var c15year = strconv.Itoa(time.Now().Year())
 
 func c15req(pool []*c15Doc, j c15Job) string {
-	if j.Mode == "d" {
+	if j.Mode == "d" || strings.HasPrefix(j.Mode, "l:") {
+		if j.Mode == "l:same" && len(j.Docs) == 1 {
+			j.Docs = []int{j.Docs[0], j.Docs[0]}
+		}
 		j.Mode = "c"
 	}
 	if j.Mode == "r" { // the model sees what a fresh engine sees: the last document of the history only
@@ -1554,6 +1602,37 @@ func init() {
 					c.Count("source=boundary-merge")
 				}
 			}
+			// the document-list dimension of Engine.Evaluate: no documents (nil and empty slice), an
+			// empty document, one document twice, three documents, lists with a nil *Document
+			listQ := []string{".Individuals", ".Nodes", ".Families | Length", ".String", "Document1", "Document2", "Document3", "Document1 | .Individuals | .Name | .String", "Document2 | .Nodes | Length",
+				"?", ".Individuals | ?", "Document1 | ?", "MergeDocumentsAndIndividuals(Document1, Document2)", "MergeDocumentsAndIndividuals(Document1)", "MergeDocumentsAndIndividuals(Document2, Document3) | .Individuals | Length",
+				`"x"`, "Length", "X is .Individuals; X | Length", "Combine(.Individuals, Document2 | .Individuals) | Length", "{a: .Individuals | Length, b: Document1}", `NodesWithTagPath("INDI")`,
+				"First(1)", "Last(1) | Length", "Only(1 = 1)", "Combine", "X is X; X", ".Foo", "Nope", "Document0", "Document1 = Document2", ".Individuals | {d: Document1 | .Families | Length}",
+				"Document3 | .Individuals | Length", "1 = 1", ".Individuals | .Spouses", ".Families | .Husband | .Individual | .String"}
+			emptyID := -1
+			if d, ok := c15mkDoc(nil); ok {
+				pool = append(pool, d)
+				emptyID = len(pool) - 1
+			}
+			rl := r.Fork("doclist")
+			for _, qy := range listQ {
+				for _, shape := range []string{"nil", "empty", "nildoc"} {
+					jobs = append(jobs, c15Job{qy, nil, "l:" + shape})
+					c.Count("source=document-list " + shape)
+				}
+				for _, shape := range []string{"docnil", "nildocfirst", "same"} {
+					jobs = append(jobs, c15Job{qy, []int{rl.Intn(nSmall)}, "l:" + shape})
+					c.Count("source=document-list " + shape)
+				}
+				if emptyID >= 0 {
+					jobs = append(jobs, c15Job{qy, []int{emptyID}, "l:new"})
+					c.Count("source=document-list new")
+				}
+				jobs = append(jobs, c15Job{qy, []int{rl.Intn(nSmall), rl.Intn(nSmall), rl.Intn(nSmall)}, "c"})
+				c.Count("source=document-list three")
+				jobs = append(jobs, c15Job{qy, []int{rl.Intn(nSmall), rl.Intn(nSmall)}, "c"})
+				c.Count("source=document-list two")
+			}
 			// formatter state: one formatter object writes two results with different column sets
 			fq := []string{".Individuals | {a: .Pointer}", ".Individuals | {b: .Pointer, c: .Value}", ".Individuals", ".Families", ".Individuals | .Name", ".Individuals | Length",
 				`"x"`, ".Nodes", ".Individuals | {}", "Combine", ".Individuals | .Names", ".Individuals | .Spouses"}
@@ -1719,7 +1798,11 @@ func init() {
 			if o.Top == "value" && i%97 == 0 {
 				c.Sample(map[string]string{"query": j.Query, "type": o.Type, "formatters": o.Fmt})
 			}
-			if j.Mode != "f" && !(j.Mode == "d" && (o.Top == "timeout" || o.Top == "fatal")) { // a deep query that does not finish is reported by the oracle below
+			nilDocList := j.Mode == "l:nildoc" || j.Mode == "l:docnil" || j.Mode == "l:nildocfirst" // a nil *Document is outside the model: direct oracle only
+			if strings.HasPrefix(j.Mode, "l:") && o.Parse == "ok" {
+				c.Count("document-list " + j.Mode[2:] + ": top=" + o.Top)
+			}
+			if j.Mode != "f" && !nilDocList && !(j.Mode == "d" && (o.Top == "timeout" || o.Top == "fatal")) { // a deep query that does not finish is reported by the oracle below
 				lm := "c"
 				if j.Mode == "j" || j.Mode == "r" {
 					lm = "j"
@@ -1738,6 +1821,10 @@ func init() {
 			}
 			// (S) the property itself
 			in := map[string]interface{}{"query": j.Query, "query_hex": hex.EncodeToString([]byte(j.Query)), "documents": c15texts(pool, j.Docs)}
+			if strings.HasPrefix(j.Mode, "l:") {
+				in["document_list"] = map[string]string{"nil": "nil slice", "empty": "empty slice", "nildoc": "[nil]", "docnil": "[document, nil]", "nildocfirst": "[nil, document]",
+					"new": "[gedcom.NewDocument()]", "same": "[d, d] (one *Document twice)"}[j.Mode[2:]]
+			}
 			if o.Parse != "ok" && o.Parse != "error" {
 				c.Oracle("", "parsing does not return a query or a syntax error", in, o.Parse, "ok | error")
 				continue
